@@ -178,7 +178,7 @@ def raw_mat(a):
 
 
 GLUE_OPS = ('solve_left', 'pluq_solve_left', 'kernel', 'echelonize_pluq')
-EXACT_OPS = ('ple', 'pluq', 'ple_russian', 'pluq_russian')
+EXACT_OPS = ('ple', 'pluq', 'ple_russian', 'pluq_russian', 'trsm_ll', 'trsm_ul', 'trsm_ur', 'trsm_lr', 'trtri_upper')
 
 
 def exact_line(cid, line, cfg):
@@ -187,6 +187,10 @@ def exact_line(cid, line, cfg):
     op = t[1]
     args = arg_mats(line)
     try:
+        if op.startswith('trsm_'):
+            return '%s.glue %s_exact %s %s %d %d %d %d' % (cid, op, raw_mat(args[0]), raw_mat(args[1]), cfg['l1'], cfg['l2'], cfg['l3'], cfg['sse2'])
+        if op == 'trtri_upper':
+            return '%s.glue %s_exact %s %d %d %d %d' % (cid, op, raw_mat(args[0]), cfg['l1'], cfg['l2'], cfg['l3'], cfg['sse2'])
         pq = ' '.join('p %d %s' % (len(a[1]), ' '.join(a[1])) for a in args[1:3])
         pq = re.sub(r' +', ' ', pq)
         if op in ('ple', 'pluq'):
